@@ -54,20 +54,24 @@ def underscoreOK (s0 : Bytes) : Bool :=
     else underscoreOKAux false s 0
   | _ => underscoreOKAux false s 0
 
+/-- base 0: detect the base from the prefix; returns (base, digits). -/
+def basePrefix (s : Bytes) : Nat × Bytes :=
+  match s with
+  | 48 :: p :: rest =>
+    if s.length ≥ 3 && lowerB p == 98 then (2, rest)
+    else if s.length ≥ 3 && lowerB p == 111 then (8, rest)
+    else if s.length ≥ 3 && lowerB p == 120 then (16, rest)
+    else (8, p :: rest)
+  | 48 :: rest => (8, rest)
+  | _ => (10, s)
+
 /-- strconv.ParseUint(s, base, bits) for base = 10 or base = 0. -/
 def parseUintGo (s : Bytes) (base : Nat) (bits : Nat) : NumRes :=
   if s.isEmpty then .syntax else
   let maxVal := 2 ^ bits - 1
   if base == 0 then
-    let (b, body) : Nat × Bytes := match s with
-      | 48 :: p :: rest =>
-        if s.length ≥ 3 && lowerB p == 98 then (2, rest)
-        else if s.length ≥ 3 && lowerB p == 111 then (8, rest)
-        else if s.length ≥ 3 && lowerB p == 120 then (16, rest)
-        else (8, p :: rest)
-      | 48 :: rest => (8, rest)
-      | _ => (10, s)
-    let r := digitLoop b maxVal true body 0 false
+    let bp := basePrefix s
+    let r := digitLoop bp.1 maxVal true bp.2 0 false
     match r.1 with
     | .ok v => if r.2 && !underscoreOK s then .syntax else .ok v
     | e => e
